@@ -4,6 +4,14 @@ import json, subprocess
 
 CHECKS = {
  # id: (claimed?, level text, level note)
+ "C01": ("Lean theorems about the executable signing arithmetic of the model: Lagrange weights of PrepareForSigning sum to the key (never hitting a nil inverse for ids distinct mod q), the transcript function (theta_j, Gamma_j, s_j -> R, s) equals finalize at R = k^-1 G, finalize is sound for EVERY input (whatever is emitted verifies, low S, 32-byte R and S, Signature = R||S, echo) and complete incl. the low-S flip, end-to-end threshold_sign_valid; tie = whole signing runs re-judged by the model from the broadcast transcript, stdlib + model verification, btcec + model key recovery",
+         "curve lawfulness assumed for secp256k1 (tested differentially); R.x >= q (probability 2^-128) and fullBytesLen outside [|m|, 32] make honest runs fail, as the model proves and the harness observes; digest >= q refusal is asserted on the Go side only"),
+ "C02": ("Lean theorems: share algebra S*B = R + h*A on any abelian group incl. cofactor-cleared nonces, little-endian helper round-trip (and its truncation behaviour); the RFC 8032 verifier of the model (own SHA-512 and curve arithmetic) judges every signature; tie = whole EdDSA keygen+signing runs under all delivery strategies, Go stdlib ed25519 oracle",
+         "edwards25519 lawfulness assumed (tested differentially); the point encode/decode round-trip of the concrete curve is tested, not proved"),
+ "C03": ("Lean theorems for every lawful curve: x_j*G = X_j, public points on one degree-t polynomial with constant term PK = sum u_i*G, any t+1 interpolate (weights and reconstruct), and Feldman acceptance alone implies consistency for arbitrary dealt values; tie = whole key-generation runs (both curves, all strategies) with the C03 clauses asserted on every party's save data",
+         "curve lawfulness assumed for the concrete curves; Paillier/ring-Pedersen arrays are compared across parties by direct assertion"),
+ "C04": ("Lean theorems: resharing preserves the secret and the public key, the V_0 = PK check is sound for arbitrary old-committee input, chains preserve the key; engine-level ordering is asserted after EVERY delivery of every run (every prefix is a cut point): no old share erased and no new key emitted before all new members acknowledged; tie = whole resharing runs (both curves, proofs on/off, pre-Start, chains, sign-after)",
+         "the two-committee engine is not table-modelled in Lean (run-level invariants only); ECDSA resharing verifies the new members' factorisation proofs after the acknowledgements (R1, see DESIGN.md)"),
  "C06": ("Lean theorems that every modelled verifier/decoder returns (never `panic`) for all field values, with pre-fix crash witnesses; model tied to the Go verifiers by verdict agreement on boundary grids over every field of every proof system",
          "function-level entry points (exported verifiers, decoders); protocol-level injection is added by the protocol harness when present; wire codec (protobuf) not modelled"),
  "C07": ("Lean theorems about the round-engine model for every table: fixpoint after each update, local confluence, idempotent duplicates, schedule independence up to permutation and duplication, pre-Start = post-Start delivery, ends exactly once, and no_deadlock for the closed n-party system (all-to-all, disciplined tables; hypotheses decided for the four library tables); tie = the behaviour of every party after each event of whole runs under 9 delivery strategies and exhaustive interleavings (EdDSA n=2) equals the model's trace",
